@@ -90,6 +90,9 @@ func (w *withCodec) Exec(op Tok) (opOut Tok, obs Tok) {
 		if !ok || w.codecAt(a[1].I()) == nil {
 			return TL(a[0], a[1]), inv
 		}
+		if len(a) > 3 && a[3].U() > 0 {
+			src = doctorDoc(src, int(a[3].U()))
+		}
 		opOut = TL(a[0], a[1], w.docTok(src))
 		if err := w.importInto(a[1].I(), src); err != nil {
 			return opOut, TErr(errGeneric)
@@ -114,6 +117,34 @@ func (w *withCodec) Exec(op Tok) (opOut Tok, obs Tok) {
 
 func rawText(r json.RawMessage) Tok { return TBs([]byte(r)) }
 
+// doctorDoc edits an exported document the way a hand-made or older-version document may differ:
+// a Top-K document ("h" is its heap) loses its last (sel 1) or first (sel 2) heap entry; other
+// documents are returned unchanged. The model imports the same edited document.
+func doctorDoc(src []byte, sel int) []byte {
+	var doc map[string]json.RawMessage
+	if json.Unmarshal(src, &doc) != nil {
+		return src
+	}
+	var heap []json.RawMessage
+	if h, ok := doc["h"]; !ok || json.Unmarshal(h, &heap) != nil || len(heap) == 0 {
+		return src
+	}
+	if sel == 2 {
+		heap = heap[1:]
+	} else {
+		heap = heap[:len(heap)-1]
+	}
+	if heap == nil {
+		heap = []json.RawMessage{}
+	}
+	doc["h"], _ = json.Marshal(heap)
+	out, err := json.Marshal(doc)
+	if err != nil {
+		return src
+	}
+	return out
+}
+
 // ---------- CMS ----------
 func (m *cmsMem) codecAt(i int) binCodec {
 	if s := m.inst[i]; s != nil {
@@ -121,7 +152,7 @@ func (m *cmsMem) codecAt(i int) binCodec {
 	}
 	return nil
 }
-func (m *cmsMem) fresh() binCodec { s, _ := gx.NewCountMinSketch(1, 1); return s }
+func (m *cmsMem) fresh() binCodec         { s, _ := gx.NewCountMinSketch(1, 1); return s }
 func (m *cmsMem) store(i int, c binCodec) { m.inst[i] = c.(*gx.CountMinSketch) }
 func (m *cmsMem) equalsTok(i, j int) Tok {
 	x, y := m.inst[i], m.inst[j]
@@ -172,7 +203,7 @@ func (m *bloomMem) codecAt(i int) binCodec {
 	}
 	return nil
 }
-func (m *bloomMem) fresh() binCodec { return gx.NewMemBloomFilterFromBitSet(nil, 1) }
+func (m *bloomMem) fresh() binCodec         { return gx.NewMemBloomFilterFromBitSet(nil, 1) }
 func (m *bloomMem) store(i int, c binCodec) { m.inst[i] = c.(*gx.BloomFilter) }
 func (m *bloomMem) equalsTok(i, j int) Tok {
 	x, y := m.inst[i], m.inst[j]
@@ -224,7 +255,7 @@ func (m *hllMem) codecAt(i int) binCodec {
 	}
 	return nil
 }
-func (m *hllMem) fresh() binCodec { h, _ := gx.NewHyperLogLog(1); return h }
+func (m *hllMem) fresh() binCodec         { h, _ := gx.NewHyperLogLog(1); return h }
 func (m *hllMem) store(i int, c binCodec) { m.inst[i] = c.(*gx.HyperLogLog) }
 func (m *hllMem) equalsTok(i, j int) Tok {
 	x, y := m.inst[i], m.inst[j]
@@ -265,7 +296,7 @@ func (m *cuckooMem) codecAt(i int) binCodec {
 	}
 	return nil
 }
-func (m *cuckooMem) fresh() binCodec { return gx.NewCuckooFilter(0, 0, 0) }
+func (m *cuckooMem) fresh() binCodec         { return gx.NewCuckooFilter(0, 0, 0) }
 func (m *cuckooMem) store(i int, c binCodec) { m.inst[i] = c.(*gx.CuckooFilter) }
 func (m *cuckooMem) equalsTok(i, j int) Tok {
 	x, y := m.inst[i], m.inst[j]
@@ -280,7 +311,7 @@ func (m *cuckooMem) exportBytes(i int) ([]byte, error) {
 	}
 	return m.inst[i].Export()
 }
-func (m *cuckooMem) importInto(i int, b []byte) error { return m.inst[i].Import(b) }
+func (m *cuckooMem) importInto(i int, b []byte) error  { return m.inst[i].Import(b) }
 func (m *cuckooMem) freshImporter() func([]byte) error { return gx.NewCuckooFilter(0, 0, 0).Import }
 func (m *cuckooMem) docTok(b []byte) Tok {
 	var d struct {
@@ -316,7 +347,7 @@ func (m *topkMem) codecAt(i int) binCodec {
 	}
 	return nil
 }
-func (m *topkMem) fresh() binCodec { return gx.NewTopK(1, 0.5, 0.5) }
+func (m *topkMem) fresh() binCodec         { return gx.NewTopK(1, 0.5, 0.5) }
 func (m *topkMem) store(i int, c binCodec) { m.inst[i] = c.(*gx.TopK) }
 func (m *topkMem) equalsTok(i, j int) Tok {
 	x, y := m.inst[i], m.inst[j]
@@ -332,7 +363,7 @@ func (m *topkMem) exportBytes(i int) ([]byte, error) {
 	}
 	return m.inst[i].Export()
 }
-func (m *topkMem) importInto(i int, b []byte) error { return m.inst[i].Import(b) }
+func (m *topkMem) importInto(i int, b []byte) error  { return m.inst[i].Import(b) }
 func (m *topkMem) freshImporter() func([]byte) error { return gx.NewTopK(1, 0.5, 0.5).Import }
 func (m *topkMem) docTok(b []byte) Tok {
 	var d struct {
